@@ -36,6 +36,10 @@ CLAIMED = {
          "Decides structural necessary conditions of C04: acceptance only under a constant-time full-length comparison between the caller's whole tag and a value from the sibling ComputeMAC path on the same key; exact prefix; no ignored trailing tag bytes; LEGACY suffix condition agreement; validators accept exactly key>=16 / 10<=tag<=digest (HMAC, five hashes) and key==32 / 10<=tag<=16 (CMAC) — evaluated by constant propagation, and constructors pass through them. RFC 2104/4493 value equality is not decided.",
          "Trusted: go/ssa; hmac.Equal / ConstantTimeCompare semantics.",
          "DESIGN.md §4 C04"),
+ "C20": ("randomness provenance: symbolic region inclusion of every nonce/IV argument in a dominating crypto/rand fill (linear prover), no intervening write (alias analysis), census of readers/creators/encapsulations",
+         "Decides the static clause of C20: every byte of every IV/nonce/salt passed to Seal/NewCTR/nonce-named parameters in producing functions lies in a region completely filled by a dominating CSPRNG fill and is not written in between; the wrappers pass whole buffers to crypto/rand and do not mask; every stdlib generator/signing reader is crypto/rand.Reader; streaming writers draw salt and nonce prefix per call; every encapsulate draws fresh randomness on every success path and keeps nothing in the shared KEM object; hedged PQ signing fills its whole randomness array; every key creator draws its material from the CSPRNG with the parameters' size. The distribution itself is crypto/rand's (assumed).",
+         "Trusted: crypto/rand; go/ssa; the two named deterministic nonce derivations (HPKE computeNonce, streaming generateSegmentNonce) are exceptions whose random inputs are checked.",
+         "DESIGN.md §4 C20, §2 engine F"),
 }
 
 NOT_APPLICABLE = {
